@@ -1439,6 +1439,148 @@ func runC07(c *Check) {
 	ruleStoredDAHeightsProvenance(c, p)
 	ruleCachesSavedAfterJoin(c, p, "C07-R8")
 	ruleMarksOnlyForAdmittedItems(c, p, "C07-R9")
+	ruleCacheSaverWritesWhatChanged(c, p, "C07-R10")
+}
+
+// ruleCacheSaverWritesWhatChanged (C07-R10): the DA-inclusion marks live in memory and reach the
+// disk only through the cache saver at shutdown; the submission watermark is persisted at once.
+// A mark that is not saved is lost for good: the watermark says "submitted", nothing submits the
+// block part again, and the DA-included height never passes it. So the saver writes its files on
+// every success return — or skips them only on a test of a field that every method changing the
+// cache's contents sets (a dirty flag that one of the mutators forgets reports "nothing changed"
+// for exactly that kind of change).
+func ruleCacheSaverWritesWhatChanged(c *Check, p *Prog, rule string) {
+	c.Doc(rule, "EO+GA: every success return of the cache saver follows the writes of its files, or is taken only on a test of a receiver field that every content-changing method of the cache (every method that stores into or deletes from one of its maps) writes on every path: a skip keyed on a dirty flag that one mutator does not set drops that mutator's changes at shutdown.")
+	cachePkg := rootPath + "/pkg/cache"
+	var saver *ssa.Function
+	var methods []*ssa.Function
+	seenGen := map[string]bool{}
+	for _, fn := range p.Funcs {
+		pk := fnPkg(fn)
+		if pk == nil || pk.Pkg.Path() != cachePkg || fn.Parent() != nil || fn.Blocks == nil || fn.Signature.Recv() == nil {
+			continue
+		}
+		gn := genericName(fnName(fn))
+		if seenGen[gn] {
+			continue // one representative per generic method
+		}
+		seenGen[gn] = true
+		methods = append(methods, fn)
+		if strings.HasSuffix(gn, ").SaveToDisk") {
+			saver = fn
+		}
+	}
+	if saver == nil {
+		c.Unk(rule, "cache saver", "", "", "anchor lost: (*Cache).SaveToDisk")
+		return
+	}
+	writesFile := func(fn *ssa.Function) bool {
+		return callsNamed(fn, func(n string) bool {
+			return n == "os.Create" || n == "os.WriteFile" || n == "os.Rename" || n == "os.OpenFile" || n == "os.CreateTemp"
+		})
+	}
+	g := BuildECFG(p, saver, ExpandOpts{MaxDepth: 0})
+	c.NoteGraph(g)
+	fileWrites := g.Select(func(n *Node) bool {
+		cc := CallCommonOf(n)
+		if cc == nil {
+			return false
+		}
+		if cal := cc.StaticCallee(); cal != nil && fnPkg(cal) != nil && fnPkg(cal).Pkg.Path() == cachePkg && writesFile(cal) {
+			return true
+		}
+		cn := CallName(n)
+		return cn == "os.Create" || cn == "os.WriteFile" || cn == "os.Rename"
+	})
+	if len(fileWrites) == 0 {
+		c.Unk(rule, "cache saver ⟂ file writes", fnName(saver), "", "anchor lost: the saver writes no file")
+		return
+	}
+	isMapMut := func(n *Node) bool {
+		cn := CallName(n)
+		return cn == "(*sync.Map).Store" || cn == "(*sync.Map).Delete" || cn == "(*sync.Map).LoadOrStore" || cn == "(*sync.Map).LoadAndDelete" || cn == "(*sync.Map).Swap" || cn == "(*sync.Map).CompareAndSwap" || cn == "(*sync.Map).Clear"
+	}
+	recv := saver.Params[0].Name()
+	nSkip := 0
+	for _, x := range g.Exits {
+		cls := g.ExitClass(x)
+		if cls == rcA {
+			continue
+		}
+		if cls != rcB {
+			// neither a constant nil nor a constructed error: a forwarded call result counts as a
+			// possible success, an error variable returned behind its own non-nil test does not
+			ret := x.In.(*ssa.Return)
+			rv := TermOf(spilledResult(ret, len(ret.Results)-1), x.Ctx)
+			if rv.Op != "call" && rv.Op != "invoke" && rv.Op != "extract" {
+				continue
+			}
+			nonNil := false
+			xx0 := x
+			for _, f := range g.NecessaryEdges(func(n *Node) bool { return n == xx0 }) {
+				a, op, b, okc := canonCmp(f.Cond, f.Pol)
+				if okc && op == "!=" && ((b.unconv().Name == "nil" && a.String() == rv.String()) || (a.unconv().Name == "nil" && b.String() == rv.String())) {
+					nonNil = true
+				}
+			}
+			if nonNil {
+				continue // returned behind its own non-nil test: an error return
+			}
+		}
+		xx := x
+		tgt := func(n *Node) bool { return n == xx }
+		path := g.PathAvoiding([]*Node{g.Entry}, tgt, nodeSet(fileWrites))
+		if path == nil {
+			continue
+		}
+		nSkip++
+		inst := "SaveToDisk ⟂ skip @" + p.InstrPos(x.In)
+		var flds []string
+		for _, f := range g.NecessaryEdges(tgt) {
+			f.Cond.Walk(func(t *Term) bool {
+				if t.Op == "field" && len(t.Args) == 1 && t.Args[0].String() == recv {
+					flds = append(flds, t.Name)
+				}
+				return true
+			})
+		}
+		if len(flds) == 0 {
+			c.Bad(rule, inst, fnName(saver), p.InstrPos(x.In), "the saver can report success without writing its files, on no test of the cache's own state: what changed since the last save is lost at shutdown (the DA-inclusion marks are kept nowhere else)", g.DescribePath(path))
+			continue
+		}
+		why := ""
+		for _, fld := range flds {
+			for _, m := range methods {
+				if m == saver {
+					continue
+				}
+				mg := BuildECFG(p, m, ExpandOpts{MaxDepth: 0})
+				muts := mg.Select(isMapMut)
+				if len(muts) == 0 {
+					continue
+				}
+				setsFld := func(n *Node) bool {
+					if fieldStoreTo(mg, fld)(n) {
+						return true
+					}
+					_, ok := isAtomicMutatorOn(n, fld)
+					return ok
+				}
+				if mg.PathAvoiding([]*Node{mg.Entry}, mg.AnyExit(), setsFld) != nil && mg.PathAvoiding(muts, mg.AnyExit(), setsFld) != nil {
+					why = fnShort(m) + " changes a map of the cache and can return without writing " + fld
+				}
+			}
+		}
+		if why == "" {
+			c.OK(rule, inst, fnName(saver), p.InstrPos(x.In), fmt.Sprintf("the files are skipped only on a test of %v, which every content-changing method of the cache writes", flds), true)
+		} else {
+			c.Bad(rule, inst, fnName(saver), p.InstrPos(x.In), fmt.Sprintf("the saver skips its files on a test of %v, but %s: that method's changes (e.g. the DA-inclusion marks a sequencer sets for accepted data) are not written at shutdown; the submission watermark is already past them, so after the restart they are never re-established and the DA-included height stops there", flds, why), g.DescribePath(path))
+		}
+	}
+	if nSkip == 0 {
+		c.OK(rule, "SaveToDisk ⟂ every success return follows the file writes", fnName(saver), p.Pos(saver.Pos()), "no success return of the saver precedes the writes of its files", true)
+	}
+	c.MinInstances(rule, 1)
 }
 
 // ruleMarksOnlyForAdmittedItems (C07-R9): on a full node the DA-inclusion mark of a block part is
